@@ -25,7 +25,7 @@ def sequences(tier):
     (the later stamp's month/day/time is earlier in the calendar than the previous one's)."""
     gaps = [1, 86400, 26 * 3600, 40 * 86400, 200 * 86400]
     starts = [epoch(2018, 12, 30, 23, 59, 59), epoch(2018, 11, 15, 12, 0, 0), epoch(2019, 6, 1, 0, 0, 1), epoch(2018, 12, 31, 23, 59, 59)]
-    nmax = 3 if tier == "quick" else 5
+    nmax = 3 if tier == "quick" else 4
     out = []
     for st in starts:
         for n in range(1, nmax + 1):
@@ -84,12 +84,16 @@ def run(tier, seed, build=True):
             mt_local.append(epoch(ylast, 12, 31, 23, 59, 59))
             if tier == "quick":
                 mt_local = mt_local[:1] + mt_local[-1:]
+            elif wraps(seq) == 0:
+                mt_local = mt_local[:1]          # thorough: logs without a wrap get one mtime position
             for (tzm, tzs_), mtl in itertools.product(tzs, mt_local):
                 if tier == "quick" and (si + tzm) % 2 and wraps(seq) == 0:
                     continue
                 mtime_utc = mtl - tzm * 60          # the modification instant whose local year is ylast
                 true_utc = [t - tzm * 60 for t in seq]
                 for cont in conts:
+                    if tier == "thorough" and cont in ("tar", "bz2") and (si % 4):
+                        continue                  # tar / bz2: every 4th log
                     d = os.path.join(work, "i%d" % len(items))
                     items.append((si, seq, data, tzm, tzs_, mtime_utc, true_utc, cont, d))
         common.log("[C11] %d file instances" % len(items))
@@ -120,12 +124,17 @@ def run(tier, seed, build=True):
             wins = [(None, None)]
             # windows around each wrap and on the first/last message
             cand = sorted(set([true_utc[0], true_utc[-1]] + [b for a, b in zip(true_utc, true_utc[1:]) if gen.civil(b)[0] != gen.civil(a)[0]]))
+            # two-sided windows spanning several messages (both bounds given)
+            if len(true_utc) >= 2:
+                wins += [(true_utc[0], true_utc[-1]), (true_utc[0] + 1, true_utc[-1])]
+                if len(true_utc) >= 3:
+                    wins += [(true_utc[1], true_utc[-1]), (true_utc[0], true_utc[-2])]
             if quick:
                 cand = cand[1:-1] if wraps(seq) else []       # quick tier: windows only on the wrap points
             for t in cand:
-                wins += [(t, None), (None, t), (t, t), (t + 1, None), (None, t - 1)] if not quick else [(t, None), (None, t - 1), (t, t)]
+                wins += [(t, None), (None, t), (t, t), (None, t - 1)] if not quick else [(t, None), (None, t - 1), (t, t)]
             for bsz in bszs:
-                if quick and bsz != 65536 and not wraps(seq):
+                if bsz != 65536 and not wraps(seq):
                     continue
                 for (a, b) in (wins if bsz == 65536 else wins[:1]):
                     args = ["--color", "never", "-u", "-d", DTFMT, "-t=" + tzs_, "--blocksz", str(bsz)]
